@@ -2,7 +2,7 @@
    Property theorems only; proofs are in proofs/IformProofs.v, the model in model/Iform.v.
    The scipy/numpy engines (norm.cdf/ppf, chi2.ppf, template cdf/icdf, dependence functions, the NSphere's
    normal draws / forces / potential) are Section variables; their contracts are the named hypotheses. *)
-From Coq Require Import List Arith PrimFloat Reals.
+From Coq Require Import List Bool Arith PrimFloat Reals.
 From V.base Require Import FloatBits.
 From V.model Require Import Iform.
 From V.proofs Require Import IformProofs.
@@ -152,7 +152,7 @@ Theorem C01_float_entry_points : forall ft ds alpha n,
   (forall x, rosenF ds x = rosen float nan ds x) /\
   (forall rand tab dim m, nsphereF rand tab dim m =
     nsphere float 0%float 3%float PrimFloat.add PrimFloat.sub PrimFloat.mul PrimFloat.div PrimFloat.sqrt PrimFloat.ltb FloatBits.of_nat
-            (fun n' d' => if Nat.eqb n' m && Nat.eqb d' dim then rand else [])
+            (fun n' d' => if (Nat.eqb n' m && Nat.eqb d' dim)%bool then rand else [])
             (fun st => fst (slook ([], nan) tab st)) (fun st => snd (slook ([], nan) tab st)) dim m).
 Proof. exact (fun ft ds alpha n => conj eq_refl (conj eq_refl (conj (fun x => eq_refl) (fun rand tab dim m => eq_refl)))). Qed.
 
